@@ -60,6 +60,10 @@ func (le LeafEnv) Resolve(p *Path) (Val, error) {
 	return VSet(lv.Vals), nil
 }
 
+// KnownInfinityWord, when set and returning true, makes the reference follow the
+// recorded known finding "number('Infinity') is Infinity instead of NaN".
+var KnownInfinityWord func() bool
+
 // ---- conversions (XPath 1.0 section 4) ------------------------------------
 
 func isXMLSpace(r rune) bool { return r == ' ' || r == '\t' || r == '\r' || r == '\n' }
@@ -68,6 +72,14 @@ func isXMLSpace(r rune) bool { return r == ' ' || r == '\t' || r == '\r' || r ==
 // optional XML whitespace, optional '-', Number, optional whitespace; else NaN.
 func StrToNum(s string) float64 {
 	t := strings.TrimFunc(s, isXMLSpace)
+	if (t == "Infinity" || t == "-Infinity") && KnownInfinityWord != nil && KnownInfinityWord() {
+		// recorded known finding: the words are converted to +-Infinity (pinned by
+		// the repository's own tests); the reference follows for exactly these inputs
+		if t[0] == '-' {
+			return math.Inf(-1)
+		}
+		return math.Inf(1)
+	}
 	u := t
 	if strings.HasPrefix(u, "-") {
 		u = u[1:]
